@@ -68,8 +68,8 @@ def plan_jobs(props, tier, vseed, only_seeds=None, only_ops=None, cap_override=N
         budget = 100
     else:
         bounds = dict(size_max=4, idx_min=-2, idx_max=5, unroll_cap=12, stmt_budget=2500)
-        cap = 30
-        budget = 1500
+        cap = 20
+        budget = 420
     if cap_override:
         cap = cap_override
     jobs = []
@@ -199,7 +199,7 @@ def run_property(prop, tier, only_seeds=None, only_ops=None):
         cj0 = []
         for j in jobs:
             j2 = dict(j)
-            j2.update(atomic=False, composites=True, composite_cap=3 if tier == "quick" else 16, budget_s=j["budget_s"] * 0.6)
+            j2.update(atomic=False, composites=True, composite_cap=3 if tier == "quick" else 10, budget_s=j["budget_s"] * 0.6)
             cj0.append(j2)
         jobs = jobs + cj0
     if prop in ("C01", "C04") and not os.environ.get("VERIF_NO_GRID"):
@@ -222,7 +222,7 @@ def run_property(prop, tier, only_seeds=None, only_ops=None):
     results = run_jobs(jobs)
     rng = random.Random(vseed)
     if not only_seeds or tier == "thorough":
-        cj = chain_jobs(results, {j["seed_name"]: j for j in jobs if j.get("atomic", True)}, 24 if tier == "quick" else 200, rng)
+        cj = chain_jobs(results, {j["seed_name"]: j for j in jobs if j.get("atomic", True)}, 24 if tier == "quick" else 120, rng)
         res2 = run_jobs(cj) if cj else []
         for j, r in zip(cj, res2):
             r["chain"] = j["chain"]
